@@ -338,9 +338,18 @@ def run(ctx):
         res.count('tree.depth=%d' % dtcodec.tree_depth(tree))
         for k in set(dtcodec.tree_kinds(tree)):
             res.count('tree.contains=' + k)
+        real = via_get_datatype(dt) if via else dt
         for mode, stream, cand, prev in make_cases(rng, tree, per_tree, big):
             if mode == 'wire' and not dtcodec.is_json_value(cand):
                 mode = 'py'
+            if prev is not None:
+                # a previous value is one that validation has accepted (precondition of the quantifier, not a verdict):
+                # e.g. the limit of a scaled type with scale < ulp(limit)/2 is in the declared set but is never accepted
+                o = _outcome(lambda: real.validate(prev))
+                if o[0] != 'ok' or dtcodec.canon(dtcodec.py_to_json(o[1])) != dtcodec.canon(dtcodec.py_to_json(prev)):
+                    res.count('previous.dropped(not accepted by validate)')
+                    prev = None
+            res.count('previous=' + ('none' if prev is None else 'given'))
             if not (dtcodec.encodable(cand) and dtcodec.encodable(prev)):
                 continue
             c = proto_case(tree, mode, dtcodec.py_to_json(cand), dtcodec.py_to_json(prev) if prev is not None else None)
